@@ -98,7 +98,7 @@ func RunConc(w *tr.Writer, st *ConcStats, tid int, r *rand.Rand, withMissing boo
 	ng := 2 + r.Intn(3)
 	disjoint := r.Intn(3) == 0
 	if saveStress {
-		ng, disjoint = 2, false
+		ng, disjoint = 3, false // writer, saver, reader
 	}
 	var counter int64
 	var mu sync.Mutex
@@ -141,6 +141,7 @@ func RunConc(w *tr.Writer, st *ConcStats, tid int, r *rand.Rand, withMissing boo
 	var wg sync.WaitGroup
 	var panics int64
 	var updStarted, updFinished int64 // updates (insert / delete) begun and completed so far, all goroutines
+	var writerDone int64              // save-stress: the writer has finished its script
 	for g := 0; g < ng; g++ {
 		wg.Add(1)
 		g := g
@@ -148,9 +149,18 @@ func RunConc(w *tr.Writer, st *ConcStats, tid int, r *rand.Rand, withMissing boo
 		nops := 2 + rr.Intn(4)
 		if saveStress {
 			nops = 9
+			if g == 0 {
+				nops = 24
+			}
+			if g == 2 {
+				nops = 16
+			}
 		}
 		go func() {
 			defer wg.Done()
+			if saveStress && g == 0 {
+				defer atomic.StoreInt64(&writerDone, 1)
+			}
 			var lastRoot []byte // save-stress: root and completed-update count read after this goroutine's previous save
 			var lastF0 int64
 			for i := 0; i < nops; i++ {
@@ -167,9 +177,14 @@ func RunConc(w *tr.Writer, st *ConcStats, tid int, r *rand.Rand, withMissing boo
 					if g == 1 {
 						op = "save"
 					}
+					if g == 2 {
+						// lookups of the deep ladder keys while the writer replaces the nodes above them
+						op = "get"
+						p = strings.Repeat("00", 3+rr.Intn(3)) + "11"
+					}
 				}
 				v := vals[rr.Intn(len(vals))]
-				switch rr.Intn(4) {
+				switch rr.Intn(4) + map[bool]int{true: 4, false: 0}[saveStress && g == 0] { // (the stress writer never pauses)
 				case 0:
 					runtime.Gosched()
 				case 1:
@@ -313,6 +328,30 @@ func RunConc(w *tr.Writer, st *ConcStats, tid int, r *rand.Rand, withMissing boo
 			}
 		}()
 	}
+	// save-stress runs: two more readers hammer the ladder keys that no update ever touches; their value is the same in every
+	// state, so any other answer is wrong whatever the interleaving (not part of the recorded history)
+	var constBad int64
+	if saveStress {
+		for x := 0; x < 2; x++ {
+			wg.Add(1)
+			xr := rand.New(rand.NewSource(seeds[0] + int64(x) + 1))
+			go func() {
+				defer wg.Done()
+				for i := 0; i < 20000 && atomic.LoadInt64(&writerDone) == 0; i++ {
+					p := strings.Repeat("00", 1+xr.Intn(4)) + "11"
+					if Guard(func() string {
+						v, err := t.GetNodeValueRaw(util.Path(p))
+						if err != nil || string(v) != "a" {
+							return "bad"
+						}
+						return "ok"
+					}) != "ok" {
+						atomic.AddInt64(&constBad, 1)
+					}
+				}
+			}()
+		}
+	}
 	wg.Wait()
 	sort.Slice(evs, func(i, j int) bool { return evs[i].stamp < evs[j].stamp })
 	w.Emit(map[string]any{"tid": tid, "op": "reset", "init": ItemsJSON(initItems), "judged": judged, "ng": ng})
@@ -321,7 +360,7 @@ func RunConc(w *tr.Writer, st *ConcStats, tid int, r *rand.Rand, withMissing boo
 	}
 	items, ires := IterItems(t)
 	wr := bridge.WalkMPT(t.GetRoot(), RawGet(db), -1)
-	w.Emit(map[string]any{"tid": tid, "op": "final", "items": ItemsJSON(items), "ires": ires, "keysOK": wr.KeysOK && (wr.Missing == 0 || !judged),
+	w.Emit(map[string]any{"tid": tid, "op": "final", "constbad": constBad, "items": ItemsJSON(items), "ires": ires, "keysOK": wr.KeysOK && (wr.Missing == 0 || !judged),
 		"shape": wr.Term.JSON()})
 	st.Events += len(evs) + 2
 	st.Ops += len(evs) / 2
@@ -338,4 +377,84 @@ type slowDB struct {
 func (s *slowDB) MultiPutNode(keys []util.Key, nodes []util.Node) error {
 	time.Sleep(s.d)
 	return s.NodeDB.MultiPutNode(keys, nodes)
+}
+
+// RunConstStress: one writer re-writes a single deep key several thousand times (ending on its initial value) while six readers
+// look up neighbouring keys that no update touches.  Those values are the same in every state of the run, so any other
+// answer - in particular "node not found" because a lookup still needed a node that an update has just superseded - is
+// wrong whatever the interleaving.  Emitted as a history without recorded calls: reset, final.
+func RunConstStress(w *tr.Writer, st *ConcStats, tid int, r *rand.Rand, updates int) {
+	w.NextTrace()
+	st.Traces++
+	var db util.NodeDB = util.NewMemoryNodeDB()
+	if r.Intn(2) == 0 {
+		db = util.NewLevelNodeDB(util.NewMemoryNodeDB(), util.NewMemoryNodeDB(), false)
+	}
+	t := util.NewMerklePatriciaTrie(db, 1, nil, NewTxnCache())
+	var initItems []bridge.Item
+	put := func(p, v string) {
+		if _, err := t.Insert(util.Path(p), Val([]byte(v))); err != nil {
+			panic(err)
+		}
+	}
+	for k := 1; k <= 5; k++ {
+		p := strings.Repeat("00", k) + "11"
+		put(p, "a")
+		initItems = append(initItems, bridge.Item{Path: []byte(p), Value: []byte("a")})
+	}
+	const hot = "000000000022"
+	put(hot, "n0")
+	initItems = append(initItems, bridge.Item{Path: []byte(hot), Value: []byte("n0")})
+	sort.Slice(initItems, func(i, j int) bool { return string(initItems[i].Path) < string(initItems[j].Path) })
+	var done, bad, lookups, panics int64
+	var wg sync.WaitGroup
+	for x := 0; x < 6; x++ {
+		wg.Add(1)
+		p := strings.Repeat("00", 1+x%5) + "11"
+		go func() {
+			defer wg.Done()
+			for atomic.LoadInt64(&done) == 0 {
+				res := Guard(func() string {
+					v, err := t.GetNodeValueRaw(util.Path(p))
+					if err != nil || string(v) != "a" {
+						return "bad"
+					}
+					return "ok"
+				})
+				atomic.AddInt64(&lookups, 1)
+				if res == "panic" {
+					atomic.AddInt64(&panics, 1)
+				}
+				if res != "ok" {
+					atomic.AddInt64(&bad, 1)
+				}
+			}
+		}()
+	}
+	wres := Guard(func() string {
+		for i := 1; i <= updates; i++ {
+			v := []string{"n1", "n2"}[i%2]
+			if i == updates {
+				v = "n0"
+			}
+			if _, err := t.Insert(util.Path(hot), Val([]byte(v))); err != nil {
+				return "err"
+			}
+		}
+		return "ok"
+	})
+	atomic.StoreInt64(&done, 1)
+	wg.Wait()
+	if wres != "ok" {
+		bad++
+	}
+	w.Emit(map[string]any{"tid": tid, "op": "reset", "init": ItemsJSON(initItems), "judged": true, "ng": 7})
+	items, ires := IterItems(t)
+	wr := bridge.WalkMPT(t.GetRoot(), RawGet(db), -1)
+	w.Emit(map[string]any{"tid": tid, "op": "final", "constbad": bad, "lookups": lookups, "updates": updates, "items": ItemsJSON(items), "ires": ires,
+		"keysOK": wr.KeysOK && wr.Missing == 0, "shape": wr.Term.JSON()})
+	st.Events += 2
+	st.Ops += updates + int(lookups)
+	st.Panics += int(panics)
+	st.Distinct["conststress"] = true
 }
